@@ -804,3 +804,65 @@ def const_bool_under(body, op, region, depth=4):
             return None
         vals.add(v)
     return next(iter(vals)) if len(vals) == 1 else None
+
+
+def rv_locals(rv):
+    """Locals an rvalue reads (base locals of its operands / places)."""
+    out = set()
+    for key in ("op", "l", "r", "x"):
+        o = rv.get(key)
+        if isinstance(o, dict) and o.get("k") in ("copy", "move"):
+            out.add(o["place"]["l"])
+    for o in rv.get("ops", ()) or ():
+        if o.get("k") in ("copy", "move"):
+            out.add(o["place"]["l"])
+    if "place" in rv and isinstance(rv["place"], dict) and rv["k"] in ("ref", "rawptr"):
+        out.add(rv["place"]["l"])
+    return out
+
+
+def forward_taint(body, seeds, carries=lambda ty: True, sinks=("push", "insert", "extend", "push_back"), blocks=None, skip_calls=()):
+    """Locals that may hold (part of) a value held by one of the seed locals: propagation through assignments, aggregates,
+    references and calls (arguments -> destination; for container mutators arguments -> receiver).  Only locals whose type
+    satisfies `carries` (and the return place) take the taint on."""
+    tainted = set(seeds)
+    changed = True
+    while changed:
+        changed = False
+        for b, blk in enumerate(body.blocks):
+            if blk["cleanup"] or (blocks is not None and b not in blocks):
+                continue
+            for st in blk["stmts"]:
+                if st["k"] != "assign" or st["rv"]["k"] == "discriminant":
+                    continue
+                d = st["place"]["l"]
+                if d in tainted:
+                    continue
+                if rv_locals(st["rv"]) & tainted and (d == 0 or carries(body.locals[d]["ty"])):
+                    tainted.add(d)
+                    changed = True
+            t = blk.get("term")
+            if t and t["k"] == "call" and b not in skip_calls:
+                args = [a["place"]["l"] for a in t["args"] if a["k"] in ("copy", "move")]
+                if any(a in tainted for a in args):
+                    d = t["dest"]["l"]
+                    if d not in tainted and (d == 0 or carries(body.locals[d]["ty"])):
+                        tainted.add(d)
+                        changed = True
+                    if last_seg(callee(t) or "") in sinks and args and any(a in tainted for a in args[1:]):
+                        # the receiver is a reference: taint what it refers to
+                        cur, hops = args[0], 0
+                        while hops < 6:
+                            if cur not in tainted:
+                                tainted.add(cur)
+                                changed = True
+                            refs = [d[3]["rv"]["place"]["l"] for d in body.defs().get(cur, []) if d[0] == "assign" and d[3]["rv"]["k"] in ("ref", "use")
+                                    and (d[3]["rv"].get("place") or d[3]["rv"].get("op", {}).get("place"))
+                                    for _ in [0] if d[3]["rv"]["k"] == "ref"]
+                            uses = [d[3]["rv"]["op"]["place"]["l"] for d in body.defs().get(cur, []) if d[0] == "assign" and d[3]["rv"]["k"] == "use"
+                                    and d[3]["rv"]["op"]["k"] in ("copy", "move")]
+                            nxt = refs + uses
+                            if len(nxt) != 1:
+                                break
+                            cur, hops = nxt[0], hops + 1
+    return tainted
